@@ -111,9 +111,9 @@ func c10Prepare(s *gen.Stream) (*c10Base, string) {
 		return nil, fmt.Sprintf("uncut stream does not parse cleanly: panic=%v err=%v snaps=%d/%d", res.Panic, res.FinalErr, len(res.Snaps), s.NumDumps())
 	}
 	b.snaps = res.Snaps
-	for _, c := range res.Calls {
-		b.fwd = append(b.fwd, c.Prefix...)
-	}
+	// What the uncut stream forwards: all the text that is not part of a dump (ground truth; the uncut run
+	// itself may forward less when it ends on withheld race-header lines - the known finding of C02).
+	b.fwd = s.PassThrough()
 	for i := range b.geo {
 		if b.geo[i].seg.Dump != nil || b.geo[i].seg.Race != nil {
 			b.dumpSeg = append(b.dumpSeg, i)
@@ -163,7 +163,17 @@ func c10Eval(r *core.Run, base *c10Base, c *c10Case) {
 	for si, s := range res.Snaps {
 		g := &base.geo[base.dumpSeg[si]]
 		full := base.snaps[si]
-		if c.Cut >= g.end {
+		// The dump is over for the scanner only once the line that ends it has been delivered completely: an
+		// unterminated fragment of the next line can still look like a continuation of the last goroutine.
+		over := g.end
+		if g.seg.Dump != nil {
+			if nl := bytes.IndexByte(base.in[g.end:], '\n'); nl >= 0 {
+				over = g.end + nl + 1
+			} else {
+				over = len(base.in) + 1
+			}
+		}
+		if c.Cut >= over {
 			if d := mon.DiffSnapshot(full, s, mon.EqOpt{IgnoreNames: true}); d != "" {
 				report("complete-dump-differs", fmt.Sprintf("dump %d lies entirely before the cut but differs: %s", si, d))
 				return
@@ -172,7 +182,10 @@ func c10Eval(r *core.Run, base *c10Base, c *c10Case) {
 		}
 		if g.seg.Dump != nil {
 			complete := 0
-			for _, e := range g.gComplete {
+			for j, e := range g.gComplete {
+				if j == len(g.gComplete)-1 {
+					e = over // the last goroutine is final only once the line ending the dump is in
+				}
 				if c.Cut >= e {
 					complete++
 				}
